@@ -40,7 +40,7 @@ func init() {
 		Shards:   shards(8, 16),
 		Timeout:  timeouts(12*time.Minute, 90*time.Minute),
 		MinEvals: 200,
-		Required: []string{"field:walk", "field:create", "field:rename", "field:attach", "rename_chains", "root:fresh-fid-after-change", "root:remove", "root:rename", "root:remove-emptied", "sentinel_snapshots_compared", "followups_after_hostile_rename", "requests_refused", "requests_accepted", "vanished_cwd_probes"},
+		Required: []string{"field:walk", "field:create", "field:rename", "field:attach", "rename_chains", "root:fresh-fid-after-change", "root:remove-after-rename", "root:remove", "root:rename", "root:remove-emptied", "sentinel_snapshots_compared", "followups_after_hostile_rename", "requests_refused", "requests_accepted", "vanished_cwd_probes"},
 		Run:      runC15,
 	})
 }
@@ -149,7 +149,7 @@ func (e *c15env) sentinelDiff() string {
 }
 
 var c15hostile = []string{"..", ".", "", "a/..", "../x", "../../outside/SECRET", "../outside/SECRET", "../outside", "../victim", "../../victim", "/etc", "/", "\\", "a\\..\\b", "..\\", "...", "..a",
-	"x\x00y", "..\x00", "\x00..", ".\x00.", "..\x00\x00", "outside", "SECRET", "victim", "exportX", "../exportX/near", "..//victim", "./../victim", "a/../../victim", strings.Repeat("L", 300)}
+	"/../exportX/near", "/../exportX/zz", "/../outside/zz", "/../export/../victim", "/x", "x\x00y", "..\x00", "\x00..", ".\x00.", "..\x00\x00", "outside", "SECRET", "victim", "exportX", "../exportX/near", "..//victim", "./../victim", "a/../../victim", strings.Repeat("L", 300)}
 
 type c15driver struct {
 	w      *mon.W
@@ -427,7 +427,21 @@ func (d *c15driver) run(seqNo int) {
 			err := d.sess.WStat(ctx, nf, p9p.Dir{Mode: ^uint32(0), Length: ^uint64(0), Name: hn})
 			d.trace = append(d.trace, fmt.Sprintf("WStat(root fid, name=%.60q) err=%v", hn, err))
 			d.w.Count("root:rename", 1)
-			d.sess.Clunk(ctx, nf)
+			if r.Intn(2) == 0 {
+				// whatever that wstat did to the fid, it still names the root: removal stays refused
+				rerr := d.sess.Remove(ctx, nf)
+				d.trace = append(d.trace, fmt.Sprintf("Remove(same root fid) err=%v", rerr))
+				d.w.Count("root:remove-after-rename", 1)
+			} else {
+				// ... and a file reached through it must stay inside when renamed
+				g := d.fid()
+				if qs, werr := d.sess.Walk(ctx, nf, g, "f"); werr == nil && len(qs) == 1 {
+					d.followUps(g, fmt.Sprintf("file f walked from the root fid after WStat(root, name=%.40q)", hn))
+					d.sess.WStat(ctx, g, p9p.Dir{Mode: ^uint32(0), Length: ^uint64(0), Name: "../stolen"})
+					d.sess.Clunk(ctx, g)
+				}
+				d.sess.Clunk(ctx, nf)
+			}
 		}
 		if !d.traced && inodeOf(d.env.root) != d.env.rootIno {
 			d.bad("export-root-gone", "the exported root directory was removed or renamed away (inode %d -> %d)", d.env.rootIno, inodeOf(d.env.root))
